@@ -662,9 +662,13 @@ func (mgr *Manager) importPcapJob(filenames []string, nextStreamID uint64, exist
 			mgr.resetStreamsDuringTaggingJob.Or(*resetStreams)
 			mgr.addedStreamsDuringTaggingJob.Or(*addedStreams)
 			mgr.invalidateTags(*updatedStreams, *resetStreams, *addedStreams)
-			mgr.invalidateConverters(updatedStreams)
+			// converter output is stale for every stream whose data changed, also
+			// for those rebuilt from an earlier first packet
+			changedStreams := updatedStreams.Copy()
+			changedStreams.Or(*resetStreams)
+			mgr.invalidateConverters(&changedStreams)
 			if mgr.converterJobRunning {
-				mgr.updatedStreamsDuringConverterJob.Or(*updatedStreams)
+				mgr.updatedStreamsDuringConverterJob.Or(changedStreams)
 			}
 		}
 		// remove finished job from queue
